@@ -393,6 +393,7 @@ struct World {
     syls: Vec<Syllable>,           // the syllable alphabet
     keys: Vec<Vec<KeyCode>>,       // key sequence (Standard layout on Qwerty) for each
     no_word: Vec<bool>,            // syllables deliberately left without any word
+    chain: Option<[usize; 4]>,     // syllables a b c d with entries for a-b, c-d and b-c (overlapping choices)
 }
 
 fn standard_key_for(b: Bopomofo) -> Option<KeyCode> {
@@ -487,6 +488,26 @@ fn gen_setup(rng: &mut Rng) -> (CaseSetup, World) {
             sys.push(e);
         }
     }
+    // a chain of overlapping phrases: a-b, c-d and b-c (choosing all three makes the last choice
+    // override two earlier ones), sometimes the whole a-b-c-d too
+    let with_word: Vec<usize> = (0..n).filter(|i| !no_word[*i]).collect();
+    let chain = if with_word.len() >= 2 && rng.chance(1, 2) {
+        let c: [usize; 4] = [*rng.pick(&with_word), *rng.pick(&with_word), *rng.pick(&with_word), *rng.pick(&with_word)];
+        for (x, y) in [(c[0], c[1]), (c[2], c[3]), (c[1], c[2])] {
+            for _ in 0..(1 + rng.below(2)) {
+                let text: String = (0..2).map(|_| cjk(rng)).collect();
+                let e = Entry { key: vec![syls[x], syls[y]], text, freq: rng.below(5000) as u32, time: rng.below(50) };
+                if rng.chance(1, 5) { usr.push(e) } else { sys.push(e) }
+            }
+        }
+        if rng.chance(1, 3) {
+            let text: String = (0..4).map(|_| cjk(rng)).collect();
+            sys.push(Entry { key: c.iter().map(|i| syls[*i]).collect(), text, freq: rng.below(5000) as u32, time: 0 });
+        }
+        Some(c)
+    } else {
+        None
+    };
     // a few homophonous duplicates across layers
     if !sys.is_empty() && rng.chance(1, 2) {
         let e = sys[rng.below(sys.len() as u64) as usize].clone();
@@ -504,7 +525,7 @@ fn gen_setup(rng: &mut Rng) -> (CaseSetup, World) {
         vec![]
     };
     let lifetime = rng.below(100);
-    (CaseSetup { sys, usr, abbr, symsel, lifetime }, World { syls, keys, no_word })
+    (CaseSetup { sys, usr, abbr, symsel, lifetime }, World { syls, keys, no_word, chain })
 }
 
 fn key_op(code: KeyCode, mods: Modifiers) -> Op {
@@ -540,7 +561,93 @@ fn gen_case(rng: &mut Rng, n: usize, tier: &str, scratch: &std::path::Path, out:
         let selecting = ed.is_selecting();
         let r = rng.below(100);
         let mut ops: Vec<Op> = vec![];
-        if selecting && r < 55 {
+        if rng.chance(1, 10) {
+            // ---- scenario productions: multi-step situations a uniform walk rarely reaches ----
+            let digit = |rng: &mut Rng| key_op(ALL_CODES[1 + rng.below(3) as usize], none);
+            match rng.below(if selecting { 5 } else { 2 }) {
+                0 if world.chain.is_some() => {
+                    // overlapping choices: type a b c d, choose at 0, at 2, then at 1
+                    let c = world.chain.unwrap();
+                    for i in c {
+                        for k in &world.keys[i] {
+                            ops.push(key_op(*k, none));
+                        }
+                    }
+                    for pos in [0usize, 2, 1] {
+                        // the chain is the tail of the buffer: count back from the end
+                        ops.push(key_op(End, none));
+                        for _ in 0..(4 - pos) {
+                            ops.push(key_op(Left, none));
+                        }
+                        ops.push(key_op(Down, none));
+                        for _ in 0..rng.below(3) {
+                            ops.push(key_op(Down, none));
+                        }
+                        if rng.chance(4, 5) { ops.push(digit(rng)) } else { ops.push(Op::Select(rng.below(3) as usize)) }
+                    }
+                }
+                0 | 1 if !rng.chance(1, 3) => {
+                    let i = rng.below(world.syls.len() as u64) as usize;
+                    for k in &world.keys[i] {
+                        ops.push(key_op(*k, none));
+                    }
+                }
+                0 | 1 => {
+                    // reset (possibly while a list is open), shorter buffer, then a list is opened and
+                    // cancelled / a symbol is picked from the symbol menu
+                    if rng.chance(1, 2) {
+                        ops.push(key_op(Down, none));
+                    }
+                    ops.push(Op::Clear);
+                    for _ in 0..(1 + rng.below(2)) {
+                        let i = rng.below(world.syls.len() as u64) as usize;
+                        for k in &world.keys[i] {
+                            ops.push(key_op(*k, none));
+                        }
+                    }
+                    match rng.below(3) {
+                        0 => { ops.push(key_op(Down, none)); ops.push(key_op(Esc, none)); }
+                        1 => { ops.push(key_op(Grave, none)); ops.push(digit(rng)); ops.push(digit(rng)); }
+                        _ => { ops.push(key_op(Down, none)); ops.push(digit(rng)); }
+                    }
+                }
+                2 => {
+                    // page forward, then the page size changes while the list is open
+                    for _ in 0..(1 + rng.below(6)) {
+                        ops.push(key_op(*rng.pick(&[Right, PageDown, Space]), none));
+                    }
+                    let mut o = opts_vec(&ed.editor_options());
+                    o[7] = 1 + rng.below(10) as u32;
+                    ops.push(Op::Opts(o));
+                }
+                _ => {
+                    // the user dictionary changes under an open phrase list (a candidate is removed /
+                    // a new one is added), possibly on a later page
+                    let snap = ed.verif_snapshot();
+                    let get = |k: &str| snap.split_whitespace().find_map(|f| f.strip_prefix(k).map(|v| v.to_string()));
+                    let cands = ed.all_candidates().unwrap_or_default();
+                    if let (Some(b), Some(e), false) = (get("begin=").and_then(|v| v.parse::<usize>().ok()), get("end=").and_then(|v| v.parse::<usize>().ok()), cands.is_empty()) {
+                        let key: Vec<Syllable> = ed.symbols().iter().skip(b).take(e.saturating_sub(b)).filter_map(|s| s.to_syllable()).collect();
+                        if key.len() == e.saturating_sub(b) && !key.is_empty() {
+                            for _ in 0..rng.below(4) {
+                                ops.push(key_op(Right, none));
+                            }
+                            for _ in 0..(1 + rng.below(2)) {
+                                if rng.chance(2, 3) {
+                                    ops.push(Op::Unlearn(key.clone(), cands[rng.below(cands.len() as u64) as usize].clone()));
+                                } else {
+                                    ops.push(Op::Learn(key.clone(), (0..key.len()).map(|_| cjk(rng)).collect()));
+                                }
+                            }
+                            pool.push((key.clone(), cands[0].clone()));
+                        }
+                    }
+                    if ops.is_empty() {
+                        ops.push(key_op(Right, none));
+                    }
+                }
+            }
+        } else if selecting && r < 55 {
             // candidate-list operations
             let total = ed.all_candidates().map(|c| c.len()).unwrap_or(0);
             let pick = rng.below(12);
